@@ -976,6 +976,40 @@ def intersection_failures(n, seed, limit=3):
             fails.append({**desc, 'problem': f'{kind} ray: path length {got!r} reported, {want!r} of the ray is inside the solid'})
             if len(fails) >= limit:
                 break
+    # rays at a small but resolvable angle to the axis (1e-7 .. 1e-3 rad) in a cylinder slender enough for the wall to end them: they are
+    # not parallel rays -- the part inside the solid is r / sin(angle) long, a fraction of the height
+    for j in range(n // 5):
+        if len(fails) >= limit:
+            break
+        ax = rng.normal(size=3)
+        ax /= np.linalg.norm(ax)
+        if j % 3 == 0:
+            ax = np.eye(3)[rng.integers(3)] * rng.choice([-1.0, 1.0])
+        u = np.cross(ax, rng.normal(size=3))
+        u /= np.linalg.norm(u)
+        eps = 10 ** rng.uniform(-7, -3)
+        h = 10 ** rng.uniform(0, 3)
+        r = h * eps * rng.uniform(0.05, 0.5)
+        base = rng.normal(size=3)
+        sense = 1.0 if j % 2 == 0 else -1.0
+        start = base + ax * (h * rng.uniform(0.0, 0.2) if sense > 0 else h * rng.uniform(0.8, 1.0)) + np.cross(ax, u) * r * rng.uniform(-0.3, 0.3)
+        d = sense * ax * np.cos(eps) + u * np.sin(eps)
+        d /= np.linalg.norm(d)
+        c = cylm.Cylinder(symmetry_line=sc.vector(ax), center_of_base=sc.vector(base, unit='m'), radius=sc.scalar(r, unit='m'), height=sc.scalar(h, unit='m'))
+        desc = {'id': f'slender{j}', 'index': j, 'seed': seed, 'kind': 'nearly parallel, slender cylinder', 'n': n, 'axis': ax.tolist(), 'base': base.tolist(), 'radius': r, 'height': h,
+                'start': start.tolist(), 'direction': d.tolist(), 'angle_to_axis_rad': eps}
+        try:
+            got = float(c.beam_intersection(sc.vector(start, unit='m'), sc.vector(d)).value)
+        except Exception as e:  # noqa: BLE001
+            fails.append({**desc, 'problem': f'beam_intersection raised {type(e).__name__}: {e}'[:300]})
+            continue
+        want = _exact_ray_length(start, d, base, ax, r, h)
+        cond = max(abs(_exact_ray_length(start, d, base, ax, r * (1 + s_), h * (1 + t_)) - want) for s_, t_ in ((1e-6, 0), (-1e-6, 0), (0, 1e-6), (0, -1e-6)))
+        if cond > 1e-4 * max(1.0, want):
+            continue
+        # (the code works with 1 - (n.a)^2: the sine of a small angle is known to it only to about 1e-16 / angle^2 -- the comparison allows that)
+        if abs(got - want) > (1e-6 + 1e-15 / eps ** 2) * max(1.0, want) + 10 * cond:
+            fails.append({**desc, 'problem': f'ray {eps:.1e} rad off the axis: path length {got!r} reported, {want!r} of the ray is inside the solid'})
     return fails
 
 
@@ -1100,8 +1134,9 @@ def replay(rec):
         return {'reproduced': bool(fails), 'cases': fails[:2]}
     f = rec.get('meta', {}).get('replay') or {}
     if 'ray-lengths' in name and 'index' in f:
-        fails = intersection_failures(int(f['index']) + 1, int(f.get('seed', 21)), limit=10 ** 6)
-        hit = [x for x in fails if x['index'] == f['index']]
+        # (the slender family is generated after the main one: its cases depend on how many main cases were drawn)
+        fails = intersection_failures(int(f['n']) if 'n' in f else int(f['index']) + 1, int(f.get('seed', 21)), limit=10 ** 6)
+        hit = [x for x in fails if x['id'] == f.get('id', x['id']) and x['index'] == f['index']]
         return {'reproduced': bool(hit), 'case': hit[:1]}
     if any(t in name for t in ('beam_intersection', '_line_infinite_cylinder_intersection', '_line_slab_intersection', '_positive_interval_intersection')):
         fails = intersection_failures(3500, 21, limit=2)
